@@ -8,6 +8,7 @@ mod r_iseq;
 mod r_iter;
 mod r_mm;
 mod r_pp;
+mod r_route;
 mod rec_cost;
 mod rec_lib;
 mod util;
@@ -143,6 +144,10 @@ fn main() {
         "miri-sample" => {
             miri_sample::run(args.val("--in").expect("--in"), seed);
             return;
+        }
+        "replay-route" => {
+            let vs = read_ndjson(args.val("--in").expect("--in"));
+            r_route::replay(&vs, &rep, args.val("--force").unwrap_or("avx2"));
         }
         "replay-iter" => {
             let vs = read_ndjson(args.val("--in").expect("--in"));
